@@ -1,8 +1,9 @@
 import Sigc.Model
 import Sigc.Lemmas.Basic
+import Sigc.Lemmas.EmitTurns
 /-!
 # C01 — emission invokes exactly the connected, unblocked slots, once each, in order
-(first theorems; the all-history statements are being proved in Sigc/Lemmas/Emit*.lean)
+(`turns_eq_snapshot` and its companions are proved with the invariant of Sigc/Lemmas/Emit*.lean)
 -/
 namespace Sigc.C01
 open Sigc.Model
@@ -89,5 +90,64 @@ example : ∃ c : Cell, aget (insertCell { impls := [(5, { cells := [{ id := 1, 
     = some { cells := [{ id := 1, slot := {}, linked := true }, c] } := by
   exact ⟨{ id := 9, slot := { rep := some { call := false, fn := none } }, linked := true },
          by simp [insertCell, St.fresh, aget, setImpl, aset]⟩
+
+
+/-! ## turns = snapshot
+
+`Sigc.Emit.emitLoopT` is `emitLoop` with one ghost result: the list of the ids of the cells that were
+offered a turn (visited by the loop), in order.  `turns_ghost_erase` says that forgetting the ghost list
+gives back `emitLoop`, so statements about the ghost list are statements about the model's loop. -/
+
+open Sigc.Emit in
+/-- the instrumented loop computes exactly what `emitLoop` computes -/
+theorem turns_ghost_erase (f : Nat) (P : Prog) (s : St) (i cur m arg r : Nat) :
+    (emitLoopT f P s i cur m arg r).map (·.1) = emitLoop f P s i cur m arg r :=
+  emitLoopT_erase f P s i cur m arg r
+
+open Sigc.Emit in
+/-- **C01.turns_eq_snapshot** — for every emission of a non-accumulating signal, at any depth, from any
+    state satisfying the invariant (every reachable state does: `C03.inv_reachable`, `C03.safe_inside`),
+    whatever the invoked slots do (connect, disconnect, clear, destroy, re-emit …): the cells offered a
+    turn by the emission's loop are exactly the cells present when the emission started, in list
+    order, each once.  If a slot throws, the turns are a non-empty prefix of that snapshot (the thrower
+    is the last one). `s2` is the state in which the loop ends, `vis` the ghost list of turns. -/
+theorem turns_eq_snapshot (f : Nat) (P : Prog) (s : St) (fl : Flavour) (i arg : Nat) (strat : Strat) (im : Impl)
+    (hs : Inv s) (hi : aget s.impls i = some im) (hacc : fl.isAcc = false) (hne : im.cells ≠ [])
+    (s' : St) (o : Outcome) (v : Nat)
+    (h : emitImpl (f+1) P s fl (some i) arg strat = some (s', o, v)) :
+    ∃ s2 vis, emitLoopT f P (emitStart s i im) i (emitFirst s im) s.next arg 0 = some ((s2, o, v), vis) ∧
+      (o = .ok → vis = im.cells.map (·.id)) ∧
+      (o = .exc → vis ≠ [] ∧ vis <+: im.cells.map (·.id)) := by
+  rcases emitImpl_loop f P s fl i arg strat im hi hacc s' o v h with ⟨hc, _⟩ | ⟨s2, hl⟩
+  · exact absurd hc hne
+  · rw [← emitLoopT_erase] at hl
+    cases hT : emitLoopT f P (emitStart s i im) i (emitFirst s im) s.next arg 0 with
+    | none => rw [hT] at hl; simp at hl
+    | some p =>
+      rw [hT] at hl
+      simp at hl
+      obtain ⟨res, vis⟩ := p
+      simp at hl; subst hl
+      have := emitLoopT_snapshot f P s i arg im hs hi (s2, o, v) vis hT
+      exact ⟨s2, vis, rfl, this.1, this.2⟩
+
+open Sigc.Emit in
+/-- the same statement for the loop alone, started the way `emitImpl` starts it -/
+theorem loop_turns_eq_snapshot (f : Nat) (P : Prog) (s : St) (i arg : Nat) (im : Impl) (hs : Inv s)
+    (hi : aget s.impls i = some im) (res : St × Outcome × Nat) (vis : List Nat)
+    (h : emitLoopT f P (emitStart s i im) i (emitFirst s im) s.next arg 0 = some (res, vis)) :
+    (res.2.1 = .ok → vis = im.cells.map (·.id)) ∧ (res.2.1 = .exc → vis ≠ [] ∧ vis <+: im.cells.map (·.id)) :=
+  emitLoopT_snapshot f P s i arg im hs hi res vis h
+
+open Sigc.Emit in
+/-- a concrete instance: three cells, the second one blocked: all three get their turn, in order -/
+example : (emitLoopT 5 { bodies := [], top := [] }
+    (emitStart { impls := [(1, { cells := [⟨2, { rep := some ⟨true, some (.leaf 7 [])⟩ }, true⟩,
+                                           ⟨3, { blocked := true, rep := some ⟨true, some (.leaf 8 [])⟩ }, true⟩,
+                                           ⟨4, { rep := some ⟨true, some (.leaf 9 [])⟩ }, true⟩] })], next := 5 } 1
+      { cells := [⟨2, { rep := some ⟨true, some (.leaf 7 [])⟩ }, true⟩,
+                  ⟨3, { blocked := true, rep := some ⟨true, some (.leaf 8 [])⟩ }, true⟩,
+                  ⟨4, { rep := some ⟨true, some (.leaf 9 [])⟩ }, true⟩] })
+    1 2 5 0 0).map (·.2) = some [2, 3, 4] := by decide +kernel
 
 end Sigc.C01
